@@ -6,6 +6,9 @@ id allocation) and `Model/Storage/IdAlloc.lean` (concurrent allocation). Helper 
 -/
 import Proofs.Lemmas.C20Base
 import Proofs.Lemmas.C20Alloc
+import Proofs.Lemmas.C20Files
+import Proofs.Lemmas.C20Render
+import Proofs.Lemmas.C20Replace
 
 namespace C20
 open Storage.Upload Storage.IdAlloc
@@ -26,7 +29,7 @@ and every way it ends in an error — whatever the fault was and wherever it str
 theorem single_fault_atomic (hist : List (Env × Req)) (env : Env) (req : Req) (e : Err)
     (h : (processUpload env req (runHistory hist {})).resp = .error e) :
     FailedPost (runHistory hist {}) (processUpload env req (runHistory hist {})) :=
-  failed_post env req _ (reachable_wf hist) e h
+  failed_post env req _ (reachable_wf hist).core e h
 
 /-- **single_fault_atomic** (detection part, "if any step fails"). Every fault of the property's list
 is answered with an error (so that `single_fault_atomic` applies), for any state `s`:
@@ -62,17 +65,39 @@ example : (match (processUpload ⟨20260930, [], []⟩
       | .error Err.fs => true
       | _ => false) = true := by decide +kernel
 
-/-- **success_complete_partial**. Index part of the success clause, after any history: the query
-`upload:<id>` of a successful upload returns exactly the benchmark lines of all its files — every
-one, once, in file order — and the id is new.
-GAP (not proved, checked byte for byte by the S layer on every successful upload of every run):
-"each file is stored once with the server's metadata header", i.e. that the store then holds
-`uploads/<id>/<part>.txt = sorted header ++ blank ++ content` for every file part. -/
-theorem success_complete_partial (hist : List (Env × Req)) (env : Env) (req : Req) (k : UKey) (fids : List Path)
+/-- **success_complete**. After any history, a successful upload with id `k`:
+* index: the query `upload:<id>` returns exactly the benchmark lines of all its files — every one,
+  once, in file order; the id is new;
+* store: for every file part (index `i` counted over all parts) the store holds exactly one entry
+  named `uploads/<id>/<i>.txt`, and its bytes are `fileBytes` = the server's metadata header (keys
+  sorted, see `stored_file_format`), a blank line, the uploaded bytes;
+* the file ids of the response are exactly these names. -/
+theorem success_complete (hist : List (Env × Req)) (env : Env) (req : Req) (k : UKey) (fids : List Path)
     (h : (processUpload env req (runHistory hist {})).resp = .ok (k, fids)) :
     ((processUpload env req (runHistory hist {})).sys.db.queryUpload k).map (·.2) = partsLines req.parts ∧
-      k ∉ (runHistory hist {}).db.uploads ∧ (processUpload env req (runHistory hist {})).alloc = some k :=
-  success_records env req _ (reachable_wf hist) k fids h
+    k ∉ (runHistory hist {}).db.uploads ∧
+    (∀ x ∈ expectedFiles env k req.parts 0,
+      (processUpload env req (runHistory hist {})).sys.fs.filter (fun e => e.1 == x.1) = [x]) ∧
+    fids = (expectedFiles env k req.parts 0).map Prod.fst := by
+  have h1 := success_records env req _ (reachable_wf hist).core k fids h
+  have h2 := success_files env req _ (runHistory_paths hist {} (by simp [Paths])) k fids h
+  exact ⟨h1.1, h1.2.1, h2.1, h2.2⟩
+
+/-- the stored bytes: `by: <user>` (if a user is known), `upload: <id>`, `upload-file: <name>` (if the
+part has a file name), `upload-part: <id>/<i>`, `upload-time: <time>`, an empty line, the content -/
+theorem stored_file_format (env : Env) (k : UKey) (i : Nat) (fname content : Bytes) :
+    fileBytes env k i fname content =
+      (if env.user.isEmpty then [] else headerLine (kBy, env.user)) ++ headerLine (kUp, renderId k) ++
+      (if fname.isEmpty then [] else headerLine (kFile, fname)) ++ headerLine (kPart, partId k i) ++
+      headerLine (kTime, env.time) ++ [10] ++ content := by
+  unfold fileBytes
+  rw [header_sorted]
+  by_cases h1 : fname.isEmpty <;> by_cases h2 : env.user.isEmpty <;> simp [h1, h2]
+
+/-- a non-trivial instance: one file `a`, no user -/
+example : fileBytes ⟨20260930, [], Bytes.ofString "T"⟩ ⟨20260930, 3⟩ 0 [97] (Bytes.ofString "BenchmarkA 1 2 ns/op\n") =
+    Bytes.ofString "upload: 20260930.3\nupload-file: a\nupload-part: 20260930.3/0\nupload-time: T\n\nBenchmarkA 1 2 ns/op\n" := by
+  decide +kernel
 
 /-- a successful upload leaves everything of earlier uploads in place as well -/
 theorem success_keeps_earlier (hist : List (Env × Req)) (env : Env) (req : Req) :
@@ -82,16 +107,34 @@ theorem success_keeps_earlier (hist : List (Env × Req)) (env : Env) (req : Req)
   · rw [h]; exact hrow
   · rw [h]; exact List.mem_append_left _ hrow
 
-/-- **ids_format_monotone**. Along any history the ids handed out (also to uploads that failed
-afterwards: their Uploads row persists) are pairwise different, within one day strictly increasing in
-creation order, numbered from 1, never equal to a row that existed before, and every one of them is
-still a row at the end. The id string is `YYYYMMDD.N` by `renderId`. -/
+/-- **ids_format_monotone**. Along any history the id STRINGS handed out (also to uploads that failed
+afterwards: their Uploads row persists) are pairwise different — never reused —, within one day the
+sequence numbers strictly increase in creation order and start at 1, every id is still a row at the
+end, and every string has the form `<digits>.<digits>` (`renderId_shape`; eight digits for a
+four-digit year). -/
 theorem ids_format_monotone (hist : List (Env × Req)) :
-    (allocs hist {}).Pairwise (fun a b => a ≠ b ∧ (a.day = b.day → a.seq < b.seq)) ∧
-    (∀ k ∈ allocs hist {}, 1 ≤ k.seq ∧ k ∈ (runHistory hist {}).db.uploads) ∧
-    (∀ k : UKey, renderId k = natBytes k.day ++ [46] ++ natBytes k.seq) := by
+    ((allocs hist {}).map renderId).Nodup ∧
+    (allocs hist {}).Pairwise (fun a b => a.day = b.day → a.seq < b.seq) ∧
+    (∀ k ∈ allocs hist {}, 1 ≤ k.seq ∧ k ∈ (runHistory hist {}).db.uploads) := by
   have h := allocs_spec hist {} WfSys.empty
-  exact ⟨h.1, fun k hk => ⟨(h.2 k hk).2.1, (h.2 k hk).2.2.2⟩, fun _ => rfl⟩
+  refine ⟨?_, h.1.imp (fun hab => hab.2), fun k hk => ⟨(h.2 k hk).2.1, (h.2 k hk).2.2.2⟩⟩
+  unfold List.Nodup
+  rw [List.pairwise_map]
+  exact h.1.imp (fun hab he => hab.1 (renderId_injective he))
+
+/-- shape of an id string: decimal day, a dot, decimal sequence number; digits only, neither part
+empty; the day of a four-digit year has eight digits; different rows have different strings -/
+theorem renderId_shape (k : UKey) :
+    renderId k = natBytes k.day ++ [46] ++ natBytes k.seq ∧
+    (∀ c ∈ natBytes k.day ++ natBytes k.seq, 48 ≤ c.toNat ∧ c.toNat ≤ 57) ∧
+    natBytes k.day ≠ [] ∧ natBytes k.seq ≠ [] ∧
+    (10000000 ≤ k.day → k.day < 100000000 → (natBytes k.day).length = 8) ∧
+    (∀ k', renderId k = renderId k' → k = k') := by
+  refine ⟨rfl, ?_, natBytes_ne_nil _, natBytes_ne_nil _, natBytes_day_length _, fun k' h => renderId_injective h⟩
+  intro c hc
+  rcases List.mem_append.mp hc with h | h
+  · exact natBytes_digits _ c h
+  · exact natBytes_digits _ c h
 
 /-- the id of a request is the day of the request -/
 theorem id_has_request_day (env : Env) (req : Req) (s : Sys) (k : UKey)
@@ -101,6 +144,65 @@ theorem id_has_request_day (env : Env) (req : Req) (s : Sys) (k : UKey)
   · rw [h1] at h; cases h; exact allocId_day h2
 
 example : renderId ⟨20260929, 12⟩ = Bytes.ofString "20260929.12" := by decide +kernel
+
+/-! ### histories with reindex operations (`db.ReplaceUpload`) -/
+
+/-- `single_fault_atomic` after ANY history of upload requests and reindex operations (of existing
+or never-created ids, committed or aborted) -/
+theorem single_fault_atomic_ops (ops : List HOp) (env : Env) (req : Req) (e : Err)
+    (h : (processUpload env req (runOps ops {})).resp = .error e) :
+    FailedPost (runOps ops {}) (processUpload env req (runOps ops {})) :=
+  failed_post env req _ (runOps_core ops {} WfSys.empty.core (by simp [Paths])).1 e h
+
+/-- `success_complete` after any history of upload requests and reindex operations -/
+theorem success_complete_ops (ops : List HOp) (env : Env) (req : Req) (k : UKey) (fids : List Path)
+    (h : (processUpload env req (runOps ops {})).resp = .ok (k, fids)) :
+    ((processUpload env req (runOps ops {})).sys.db.queryUpload k).map (·.2) = partsLines req.parts ∧
+    k ∉ (runOps ops {}).db.uploads ∧
+    (∀ x ∈ expectedFiles env k req.parts 0,
+      (processUpload env req (runOps ops {})).sys.fs.filter (fun e => e.1 == x.1) = [x]) ∧
+    fids = (expectedFiles env k req.parts 0).map Prod.fst := by
+  have c := runOps_core ops {} WfSys.empty.core (by simp [Paths])
+  have h1 := success_records env req _ c.1 k fids h
+  have h2 := success_files env req _ c.2 k fids h
+  exact ⟨h1.1, h1.2.1, h2.1, h2.2⟩
+
+/-- what a reindex does: other uploads' records stay (in order); the replaced upload has exactly the
+new benchmark lines if the replacement was committed, and none otherwise — the old records are
+deleted outside the transaction, so an aborted reindex leaves the upload empty -/
+theorem replace_upload_effect (k : UKey) (rs : List Res) (commit : Bool) (db : DB) :
+    (replaceUpload k rs commit db).records.filter (fun r => !(r.up == k)) = db.records.filter (fun r => !(r.up == k)) ∧
+    ((replaceUpload k rs commit db).queryUpload k).map (·.2) =
+      (match ({ id := k } : Tx).insertRecords rs with
+       | none => []
+       | some t1 => if commit && (t1.flush).isSome then rs.map (·.line) else []) :=
+  replace_effect k rs commit db
+
+/-- an id is never handed out twice, in any state whatsoever (the primary-key check of NewUpload) -/
+theorem id_never_reused (env : Env) (req : Req) (s : Sys) (k : UKey)
+    (h : (processUpload env req s).alloc = some k) : k ∉ s.db.uploads := by
+  rcases alloc_spec env req s with ⟨h1, _⟩ | ⟨k', h1, h2, _⟩
+  · rw [h1] at h; cases h
+  · rw [h1] at h; cases h; exact allocId_fresh h2
+
+/-- after a history in which every reindex names an existing upload, a new id is numbered from 1 and
+larger than every id of its day -/
+theorem ids_monotone_after_reindex (ops : List HOp) (hex : ReplacesExisting ops {}) (env : Env) (req : Req) (k : UKey)
+    (h : (processUpload env req (runOps ops {})).alloc = some k) :
+    1 ≤ k.seq ∧ ∀ k' ∈ (runOps ops {}).db.uploads, k'.day = k.day → k'.seq < k.seq := by
+  have w := runOps_wf ops {} WfSys.empty hex
+  rcases alloc_spec env req (runOps ops {}) with ⟨h1, _⟩ | ⟨k', h1, h2, _⟩
+  · rw [h1] at h; cases h
+  · rw [h1] at h; cases h; exact allocId_gt w.contig h2
+
+/-- the hypothesis of `ids_monotone_after_reindex` is needed: a reindex of a never-created id
+`20260928.5`, an upload on the next day, then the clock back on the 28th: the new id is `20260928.1`
+(fresh, but smaller than the row the reindex left behind) -/
+example :
+    let good : Req := ⟨[Part.file [97] (Bytes.ofString "BenchmarkA 1 2 ns/op\n") false [21]], false, none⟩
+    (processUpload ⟨20260928, [], []⟩ good
+      (runOps [HOp.replace ⟨20260928, 5⟩ [] false, HOp.upload ⟨20260929, [], []⟩ good] {})).alloc
+      = some ⟨20260928, 1⟩ := by decide +kernel
 
 /-- **ids_unique_all_interleavings**. Any number of concurrent id transactions (one day each), any
 schedule of their atomic steps read-last / insert / commit, any set of steps refused by the database:
